@@ -53,6 +53,8 @@ type Val struct {
 	Fn *Closure
 	// interval knowledge for KInt (nil = unknown)
 	Lo, Hi  *big.Int
+	Bytes   []string // little-endian byte constants b with value == sum b[i]*256^i (nil: none)
+	Mask    *big.Int // bits that may be set (nil: unknown); only for non-negative values
 	LowZero uint // number of low bits known to be zero
 	Why     string
 }
